@@ -56,6 +56,7 @@ type runner struct {
 	c        *vlib.Ctx
 	w        *worker
 	perClass map[string]int
+	rawDec   map[string][]rawFail      // failing decoder inputs by class, not yet shrunk
 	fails    map[string][]vlib.Failure // by class, in discovery order
 	classes  []string
 }
@@ -88,6 +89,7 @@ func classRank(c string) int {
 }
 
 func (r *runner) flush() {
+	r.shrinkPending()
 	sort.Slice(r.classes, func(i, j int) bool {
 		a, b := classRank(r.classes[i]), classRank(r.classes[j])
 		if a != b {
@@ -223,12 +225,42 @@ func (r *runner) doDec(kind string, b []byte) {
 		return
 	}
 	c.Count("fail:dec:" + f)
-	if r.perClass["dec:"+f] >= maxShrunkPerClass {
-		return
+	// shrinking is postponed to the end of the run: the shortest failing inputs of each
+	// class are shrunk and reported (a failure found on a long input first would otherwise
+	// hide the short replay a later generator produces)
+	if len(r.rawDec[f]) < 4000 {
+		r.rawDec[f] = append(r.rawDec[f], rawFail{append([]byte{}, b...), d})
 	}
-	r.perClass["dec:"+f]++
-	sb, sd := r.shrinkDec(b, f, d)
-	r.record("dec:"+f, "dec:"+f+":"+hex.EncodeToString(sb), sd, Replay{Kind: "dec", Hex: hex.EncodeToString(sb), What: sd})
+}
+
+type rawFail struct {
+	b    []byte
+	desc string
+}
+
+func (r *runner) shrinkPending() {
+	classes := make([]string, 0, len(r.rawDec))
+	for cl := range r.rawDec {
+		classes = append(classes, cl)
+	}
+	sort.Strings(classes)
+	for _, cl := range classes {
+		l := r.rawDec[cl]
+		sort.SliceStable(l, func(i, j int) bool { return len(l[i].b) < len(l[j].b) })
+		seen := map[string]bool{}
+		for _, rf := range l {
+			if len(seen) >= maxShrunkPerClass || r.w.hangs > 25 {
+				break
+			}
+			sb, sd := r.shrinkDec(rf.b, cl, rf.desc)
+			h := hex.EncodeToString(sb)
+			if seen[h] {
+				continue
+			}
+			seen[h] = true
+			r.record("dec:"+cl, "dec:"+cl+":"+h, sd, Replay{Kind: "dec", Hex: h, What: sd})
+		}
+	}
 }
 
 func (r *runner) shrinkDec(b []byte, class, desc string) ([]byte, string) {
@@ -256,6 +288,25 @@ func (r *runner) shrinkDec(b []byte, class, desc string) ([]byte, string) {
 			}
 		}
 	}
+	// length-coupled edits: lower one byte by one and delete one later byte
+	for changed := true; changed && budget > 0 && len(b) <= 48; {
+		changed = false
+		for i := 0; i < len(b) && !changed; i++ {
+			if b[i]&0x7f == 0 {
+				continue
+			}
+			for k := len(b) - 1; k > i && budget > 0; k-- {
+				budget--
+				cand := append([]byte{}, b[:k]...)
+				cand = append(cand, b[k+1:]...)
+				cand[i]--
+				if try(cand) {
+					changed = true
+					break
+				}
+			}
+		}
+	}
 	return b, desc
 }
 
@@ -274,7 +325,7 @@ func main() {
 	c.Family("enc", req, "enc_case_ok", 300)
 	c.Family("dec", req, "dec_case_ok", 400)
 	c.Family("lim", req, "lim_case_ok", 50)
-	r := &runner{c: c, w: &worker{}, perClass: map[string]int{}, fails: map[string][]vlib.Failure{}}
+	r := &runner{c: c, w: &worker{}, perClass: map[string]int{}, fails: map[string][]vlib.Failure{}, rawDec: map[string][]rawFail{}}
 	defer r.w.stop()
 	defer r.flush()
 	c.Res.Rule = "enc: EXHAUSTIVE over every sequence of length 1..3 (quick) / 1..4 (thorough) of a 12-symbol alphabet {bitswap, gateway, graphsync-filecoin x 4 piece CIDs/flag settings, 6 unknown codes below/between/above the known IDs with payloads 0..128}; SAMPLED: sequences of length 4..6 with random payloads 0..300 B and 9 piece CIDs, unknown payload length sweep 0..300 and 1000..1024, metadata.HTTPV1() combinations, 13..40 protocols with distinct IDs; non-trivial = at least 2 protocols one of which has a variable-length encoding. dec: valid encodings, all their truncations, bit flips, byte edits, all ordered pairs and random trains concatenated as given, hostile/boundary/malformed length prefixes, hand-written non-canonical DAG-CBOR, random bytes <= 1 KiB; non-trivial = accepted with >= 2 protocols, or rejected input of >= 3 bytes. lim: largest graphsync link the DAG-CBOR budget admits"
@@ -492,6 +543,54 @@ func main() {
 		r.doDec("malformed-varint", cat([]byte{0x80, 0x12}, mv))         // after a valid protocol
 		r.doDec("malformed-varint", cat([]byte{0x90, 0x12}, mv))         // where CBOR is expected
 	}
+	// every varint of a valid encoding, written non-minimally, one at a time
+	nmSets := [][]PSpec{{al[0]}, {al[1]}, {al[2]}, {al[5]}, {al[6]}, {al[7]}, {al[8]}, {al[9]}, {al[11]},
+		{al[0], al[1]}, {al[7], al[0], al[1]}, {al[6], al[5], al[10]}, {al[0], al[2], al[9], al[1], al[11]},
+		{unk(0x30, []byte{0xaa, 0xbb, 0x80, 0x12}), al[0]}, {unk(0x0921, []byte{0xa0, 0x12, 0x00}), al[11]}}
+	for i, n := 0, c.Pick(6, 60); i < n; i++ {
+		k := 2 + rd.Intn(4)
+		specs := make([]PSpec, k)
+		for j := range specs {
+			specs[j] = randomSpec(rd, al)
+		}
+		nmSets = append(nmSets, specs)
+	}
+	for _, specs := range nmSets {
+		for _, v := range respelledEncodings(specs) {
+			r.doDec(v.kind, v.b)
+		}
+	}
+	// a padded size varint in front of a payload whose end overlaps a well-formed protocol
+	// sequence, at every alignment
+	tails := [][]byte{
+		{0x80, 0x12},                         // bitswap
+		{0xa0, 0x12, 0x00},                   // gateway
+		{0x80, 0x12, 0xa0, 0x12, 0x00},       // bitswap, gateway
+		{0x80, 0x12, 0x80, 0x12},             // bitswap twice
+		bases[5],                             // graphsync-filecoin with a 7-byte CID
+		cat(bases[0], bases[5], bases[1]),    // bitswap, graphsync, gateway
+		cat(uv(0x0921), uv(2), []byte{7, 8}), // a small unknown above the gateway
+		cat(bases[10], bases[11]),            // two unknowns
+	}
+	for _, code := range []uint64{0x12, 0x30, 0x0302} {
+		for _, pad := range []int{1, 2, 3, 8, 9} {
+			for _, pl := range []int{0, 2, 5} {
+				prefix := seqBytes(pl, 0xaa)
+				for _, tail := range tails {
+					for j := 0; j <= len(tail); j++ {
+						if j > 6 && j != len(tail) {
+							continue
+						}
+						b := paddedSizeWithTail(code, pad, prefix, tail, j)
+						r.doDec("nonminimal:size-with-tail", b)
+						if pl == 2 && j == pad {
+							r.doDec("nonminimal:size-with-tail", cat([]byte{0x05, 0x00}, b)) // after another protocol
+						}
+					}
+				}
+			}
+		}
+	}
 	r.doDec("fixed", []byte{0xa0, 0x12})       // gateway without its length byte
 	r.doDec("fixed", []byte{0xa0, 0x12, 0x01}) // gateway with a non-zero length
 	r.doDec("fixed", []byte{0xa0, 0x12, 0x00, 0x00})
@@ -524,7 +623,14 @@ func main() {
 						decl = 0
 					}
 				}
-				b = cat(b, uv(uint64(rd.Intn(5000))), uv(uint64(decl)), rd.Bytes(l))
+				padc, pads := 0, 0
+				if rd.Intn(6) == 0 {
+					padc = 1 + rd.Intn(3)
+				}
+				if rd.Intn(3) == 0 {
+					pads = 1 + rd.Intn(3)
+				}
+				b = cat(b, respell(uint64(rd.Intn(5000)), padc), respell(uint64(decl), pads), rd.Bytes(l))
 			}
 		case 4: // graphsync prefix, CBOR-looking noise
 			b = cat([]byte{0x90, 0x12, 0xa3, 0x68}, []byte("PieceCID"), []byte{0xd8, 0x2a}, rd.Bytes(rd.Intn(48)))
